@@ -203,12 +203,29 @@ def fragLocalClosure (c h : Key) (uses : Nat) : Trace :=
   [⟨.alloc, c⟩, ⟨.alloc, h⟩] ++ List.replicate uses ⟨.use, c⟩ ++
     [⟨.release, c⟩, ⟨.free, c⟩, ⟨.release, h⟩, ⟨.free, h⟩]
 
-/-- traffic the pinned VM produces for `let f = |x| { … captured … }` inside a function: the scope-exit "release"
-is `CloseHeapClosure` (mirgen `insert_release_recursively`), `release_heap_closure` then skips the closed closure and
-frees only the wrapper -/
-def fragLetClosure (c h : Key) (uses : Nat) : Trace :=
-  [⟨.alloc, c⟩, ⟨.alloc, h⟩] ++ List.replicate uses ⟨.use, c⟩ ++ [⟨.close, c⟩, ⟨.release, h⟩, ⟨.free, h⟩]
+/-- the traffic with the dereferences erased: what matters for balance -/
+def skeleton (t : Trace) : Trace := t.filter fun o => o.kind != .use
 
+/-- skeleton of the traffic of a closure that is never closed (same as `fragLocalClosure` without its uses) -/
+def skLocalClosure (c h : Key) : Trace :=
+  [⟨.alloc, c⟩, ⟨.alloc, h⟩, ⟨.release, c⟩, ⟨.free, c⟩, ⟨.release, h⟩, ⟨.free, h⟩]
+
+/-- skeleton of what the pinned VM does for `let f = |x| { … captured … }` inside a function: the scope-exit
+"release" is `CloseHeapClosure` (mirgen `insert_release_recursively`), `release_heap_closure` then skips the closed
+closure and frees only the wrapper -/
+def skLetClosure (c h : Key) : Trace :=
+  [⟨.alloc, c⟩, ⟨.alloc, h⟩, ⟨.close, c⟩, ⟨.release, h⟩, ⟨.free, h⟩]
+
+/-- skeleton of what the pinned VM does for a function value passed as an argument (`hof(g, y)`): wrapped
+(`MakeHeapClosure`), `CloneHeap`'d for the call, closed, and only the caller's own reference to the wrapper is
+released — the clone never is -/
+def skFnArg (c h : Key) : Trace :=
+  [⟨.alloc, c⟩, ⟨.alloc, h⟩, ⟨.retain, h⟩, ⟨.retain, c⟩, ⟨.close, c⟩, ⟨.release, h⟩]
+
+/-- skeleton of what the pinned VM does for a closure returned from a function (`mk(a)(y)`): closed and cloned
+before `Return`, the callee's scope exit releases the wrapper once; `again` further closes by the caller -/
+def skFnRet (c h : Key) (again : Nat) : Trace :=
+  [⟨.alloc, c⟩, ⟨.alloc, h⟩, ⟨.close, c⟩, ⟨.retain, h⟩, ⟨.retain, c⟩, ⟨.release, h⟩] ++ List.replicate again ⟨.close, c⟩
 
 /-! ## recorded witnesses of the open C12 findings -/
 
@@ -226,7 +243,13 @@ def witnessFnArg : Trace :=
   [⟨.alloc, c 1 1⟩, ⟨.alloc, h 1 1⟩, ⟨.retain, h 1 1⟩, ⟨.retain, c 1 1⟩, ⟨.use, c 1 1⟩, ⟨.use, c 1 1⟩,
    ⟨.close, c 1 1⟩, ⟨.use, c 1 1⟩, ⟨.use, c 1 1⟩, ⟨.use, c 1 1⟩, ⟨.release, h 1 1⟩]
 
-/-- C12-K3 `type rec List = Nil | Cons(float, List)` … `fn dsp(){ let l = Cons(1.0, Nil)  sum(l) }` — first sample:
+/-- C12-K3 `fn mk(a){ |x| { x+a } }  fn dsp(){ mk(2.0)(1.0) }` — first sample:
+`cA1.1 hA1.1 cU cU cC1.1 cU h+1.1 c+1.1 cU h-1.1 cU cU` -/
+def witnessFnRet : Trace :=
+  [⟨.alloc, c 1 1⟩, ⟨.alloc, h 1 1⟩, ⟨.use, c 1 1⟩, ⟨.use, c 1 1⟩, ⟨.close, c 1 1⟩, ⟨.use, c 1 1⟩, ⟨.retain, h 1 1⟩,
+   ⟨.retain, c 1 1⟩, ⟨.use, c 1 1⟩, ⟨.release, h 1 1⟩, ⟨.use, c 1 1⟩, ⟨.use, c 1 1⟩]
+
+/-- C12-K4 `type rec List = Nil | Cons(float, List)` … `fn dsp(){ let l = Cons(1.0, Nil)  sum(l) }` — first sample:
 `hA1.1 h+1.1 h+1.1 h+1.1 hU1.1 h-1.1` -/
 def witnessBox : Trace :=
   [⟨.alloc, h 1 1⟩, ⟨.retain, h 1 1⟩, ⟨.retain, h 1 1⟩, ⟨.retain, h 1 1⟩, ⟨.use, h 1 1⟩, ⟨.release, h 1 1⟩]
